@@ -295,8 +295,15 @@ V_HARNESS {
 #elif OP == OP_REM
   /* explicit del of a registered object (collector running) */
   V_ASSUME(inv(gc, NS, 1) && c_in && IN.own[c] == -1);
+#ifdef STOPPED   /* known finding: explicit del while the collector is stopped */
+  gc->running = false;
+#endif
   GC_Rem(gc, pc);
   V_WITNESS("rem completed");
+#ifdef STOPPED
+  V_ASSERT(finalised[c] == 1 && freed[c] == 1 && order_ok && !GC_Mem_Ptr(gc, pc), "rem: the object is finalised once, then released once, and unregistered -- whether the collector is running or stopped");
+  return;
+#endif
   V_ASSERT(inv(gc, NS, 1), "rem: registry invariant preserved (backward shift)");
   V_ASSERT(gc->nitems == n - 1 && finalised[c] == 1 && freed[c] == 1 && order_ok, "rem: the object is finalised once, then released once, and unregistered");
   V_ASSERT(rehash_calls == ((int64_t)(n - 1) <= MAXN_BELOW ? 1 : 0), "rem: shrink rehash requested exactly when the contents fit the smaller size");
